@@ -167,7 +167,10 @@ def parse_traces(txt):
             cid = " ".join(t[1:])
             cur = []
         elif t[0] == "T":
-            cur.append((int(t[1]), [int(x) for x in t[2:]]))
+            try:
+                cur.append((int(t[1]), [int(x) for x in t[2:]]))
+            except (ValueError, IndexError):
+                cur.append((97, []))          # garbled line (the process died while writing)
         elif t[0] == "X":
             out[cid] = cur
     return out
